@@ -32,6 +32,9 @@ type vfC05SIO struct {
 	limit    int
 	shrinkIn int // >0: after this many more accepted datagrams the limit becomes shrinkTo (path MTU dropped mid-message)
 	shrinkTo int
+	blockIn  int           // >0: the datagram after this many more accepted ones waits at gate before it is looked at (QUIC send queue full)
+	gate     chan struct{} // closed by the harness to let the blocked SendMessage go on
+	blocked  chan struct{} // closed by the fake when a SendMessage is parked at the gate
 	inbox    chan *protocol.UDPMessage
 	closed   chan struct{}
 	out      [][]byte // datagrams accepted, in order
@@ -50,6 +53,15 @@ func (f *vfC05SIO) ReceiveMessage() (*protocol.UDPMessage, error) {
 
 func (f *vfC05SIO) SendMessage(buf []byte, m *protocol.UDPMessage) error {
 	f.mu.Lock()
+	if f.blockIn < 0 {
+		// backpressure: this call does not return (nor look at its arguments) before the harness opens the gate
+		f.blockIn = 0
+		g := f.gate
+		close(f.blocked)
+		f.mu.Unlock()
+		<-g
+		f.mu.Lock()
+	}
 	defer f.mu.Unlock()
 	n := m.Serialize(buf)
 	if n < 0 {
@@ -62,6 +74,11 @@ func (f *vfC05SIO) SendMessage(buf []byte, m *protocol.UDPMessage) error {
 		return &quic.DatagramTooLargeError{MaxDatagramPayloadSize: int64(f.limit)}
 	}
 	f.out = append(f.out, append([]byte(nil), buf[:n]...))
+	if f.blockIn > 0 {
+		if f.blockIn--; f.blockIn == 0 {
+			f.blockIn = -1
+		}
+	}
 	if f.shrinkIn > 0 {
 		if f.shrinkIn--; f.shrinkIn == 0 {
 			f.limit = f.shrinkTo
@@ -389,6 +406,117 @@ func TestVerifC05ServerReceiveOrder(t *testing.T) {
 		})
 		if ci == 3 {
 			k.Sample(c)
+		}
+	}
+}
+
+
+// TestVerifC05ServerBackpressure: the QUIC send queue is full in the middle of a fragmented reply —
+// SendMessage does not return for a while — and meanwhile more packets arrive on the session's socket.
+// Whatever the server does with them (reads ahead, queues, drops), every message the far side
+// reassembles from the datagrams that left must be one of the packets the socket produced, intact.
+func TestVerifC05ServerBackpressure(t *testing.T) {
+	k := vfNewKit(t, "C05", "server-backpressure")
+	defer k.Finish()
+	n := k.N(60, 1500)
+	for i := 0; i < n; i++ {
+		caseID := fmt.Sprintf("sbp-%d", i)
+		if rc := k.ReplayCase(); rc != "" && rc != caseID {
+			continue
+		}
+		r := k.Rand(caseID)
+		k.Eval()
+		limit := 300 + r.Intn(900)
+		npk := 3 + r.Intn(4)
+		sizes := make([]int, npk)
+		for j := range sizes {
+			sizes[j] = 1 + r.Intn(3*limit)
+			if sizes[j] > protocol.MaxUDPSize-64 {
+				sizes[j] = protocol.MaxUDPSize - 64
+			}
+		}
+		sizes[0] = 2*limit + r.Intn(2*limit) // the first one is fragmented
+		if sizes[0] > protocol.MaxUDPSize-64 {
+			sizes[0] = protocol.MaxUDPSize - 64
+		}
+		blockAfter := 1 + r.Intn(2)
+		rep := map[string]any{"case_id": caseID, "limit": limit, "packet_sizes": sizes, "send_blocks_after_datagrams": blockAfter}
+		synctest.Test(t, func(t *testing.T) {
+			conn := &vfC05SConn{replies: make(chan []byte), closed: make(chan struct{})}
+			fio := &vfC05SIO{limit: limit, inbox: make(chan *protocol.UDPMessage), closed: make(chan struct{}), conn: conn}
+			sm := newUDPSessionManager(fio, vfC05SLogger{}, 60*time.Second)
+			done := make(chan struct{})
+			go func() { _ = sm.Run(); close(done) }()
+			fio.inbox <- &protocol.UDPMessage{SessionID: 7, FragCount: 1, Addr: "target.verif:53", Data: []byte("hello")}
+			synctest.Wait()
+			fio.mu.Lock()
+			fio.blockIn, fio.gate, fio.blocked = blockAfter, make(chan struct{}), make(chan struct{})
+			gate, blocked := fio.gate, fio.blocked
+			fio.mu.Unlock()
+			var payloads [][]byte
+			for j, sz := range sizes {
+				payloads = append(payloads, vfC05SPayload(uint32(i*16+j+1), sz))
+			}
+			fed := make(chan struct{})
+			go func() {
+				defer close(fed)
+				for _, p := range payloads {
+					select {
+					case conn.replies <- p:
+					case <-conn.closed:
+						return
+					}
+				}
+			}()
+			synctest.Wait() // the first reply is stuck in SendMessage; whatever can be read ahead has been read
+			select {
+			case <-blocked:
+				k.Count("ev_backpressure_achieved", 1)
+			default:
+				k.Count("ev_backpressure_not_reached", 1)
+			}
+			close(gate)
+			synctest.Wait()
+			<-fed
+			synctest.Wait()
+			fio.mu.Lock()
+			sent := append([][]byte(nil), fio.out...)
+			fio.mu.Unlock()
+			d := &frag.Defragger{}
+			next := 0
+			for _, raw := range sent {
+				k.Count("ev_backpressure_datagrams", 1)
+				m, err := protocol.ParseUDPMessage(append([]byte(nil), raw...))
+				if err != nil {
+					k.Violation("send:datagram-unparsable", rep, "datagram does not parse: %v", err)
+					continue
+				}
+				out := d.Feed(m)
+				if out == nil {
+					continue
+				}
+				// the emitted message must be one of the packets the socket produced (in order; some may be missing)
+				found := -1
+				for j := next; j < len(payloads); j++ {
+					if bytes.Equal(out.Data, payloads[j]) {
+						found = j
+						break
+					}
+				}
+				if found < 0 || out.SessionID != 7 {
+					k.Violation("send:delivered-message-differs", rep, "under backpressure the client would reassemble %d bytes (session %d) that are none of the %d packets the socket produced (sizes %v)", len(out.Data), out.SessionID, len(payloads), sizes)
+					continue
+				}
+				next = found + 1
+				k.Count("ev_backpressure_replies_delivered", 1)
+			}
+			close(fio.closed)
+			<-done
+			_ = conn.Close()
+		})
+		k.Nontrivial(fmt.Sprint(limit, sizes, blockAfter))
+		if i < 2 {
+			k.Sample(rep)
 		}
 	}
 }
